@@ -52,7 +52,7 @@ def proof_phase(mod, report):
         report["driver_build_ok"] = ok
         if not ok:
             report["driver_build_out"] = out[-3000:]
-            return ["model driver does not build (a regenerated definition no longer type-checks):\n" + out[-1500:]], True
+            return ["model driver does not build (a regenerated definition no longer type-checks):\n" + out[-1500:]], "nomodel"
         names = []
         built = {}
         for pm in mod.PROPS:
@@ -102,6 +102,10 @@ def run(mod, tier, seed, replay=None):
     samples = []
     distinct = set()
     corr_breaks = []
+    # the model does not build: the search for a failing input still runs, implementation against the statement-level oracle
+    nomodel = fatal == "nomodel" and not hasattr(mod, "run_shards")
+    if nomodel:
+        fatal = False
     if not fatal:
         rng = random.Random(seed)
         shards = []
@@ -122,7 +126,8 @@ def run(mod, tier, seed, replay=None):
         if hasattr(mod, "run_shards"):
             impl, model = mod.run_shards(shards)
         else:
-            impl, model = core.run_shards(mod.FAMILY, shards, timeout=getattr(mod, "TIMEOUT", 1800), augment=getattr(mod, "augment", None))
+            impl, model = core.run_shards(mod.FAMILY, shards, timeout=getattr(mod, "TIMEOUT", 1800), augment=getattr(mod, "augment", None),
+                                          no_model=nomodel)
         view = getattr(mod, "view", lambda o: o)
         for si, sh in enumerate(shards):
             for ci, c in enumerate(sh):
@@ -137,7 +142,7 @@ def run(mod, tier, seed, replay=None):
                 if isinstance(io, dict) and "panic" in io and isinstance(mo, dict) and "panic" in mo:
                     same = True      # both panic (the model predicts the panic; sites/messages are informational)
                 else:
-                    same = core.canon(view(io)) == core.canon(view(mo))
+                    same = nomodel or core.canon(view(io)) == core.canon(view(mo))
                 try:
                     ds = mod.oracle(c, io, ri)
                 except Exception:
